@@ -410,20 +410,7 @@ func runC07(c *eng.Ctx) {
 			"a path returns without sequences[leader] = seq")
 	})
 
-	c.Rule("OWNER", "replica{SetAckIndex}", func() {
-		owner(c, "call of ConsumerGroup.Ack", eng.AnyCallTo("pkg/queue.ConsumerGroup.Ack", cgT+".Ack"), []string{rpT + ".SetAckIndex"}, 1)
-		owner(c, "call of replicator.SetAckIndex", eng.AnyCallTo(rpT+".SetAckIndex", "replica.Replicator.SetAckIndex"),
-			[]string{"replica.NewLocalReplicator", rpT + ".IgnoreMessage", "replica.remoteReplicator.Replica", "replica.remoteReplicator.IsReady"}, 3)
-		f := c.Fn(rpT + ".IgnoreMessage")
-		s := c.One(f, eng.CallTo(rpT+".SetAckIndex"), "SetAckIndex")
-		facts := p.MustFacts(f)
-		fs := facts.At(s.Instr)
-		eq := facts.Find(fs, "eq", func(d string, _ ssa.Value) bool {
-			return strings.HasSuffix(d, "+1)") && (strings.Contains(d, "acknowledgedSeq") || strings.Contains(d, "AckIndex") || strings.Contains(d, "AcknowledgedSeq"))
-		}, eng.DescIs("replicaIdx"))
-		c.Check(len(eq) > 0, "ignore-only-next", s.Instr, f, "an undeliverable entry is acknowledged only when it is exactly ack+1 (never skipping unpersisted entries)", "facts: "+strings.Join(facts.Render(fs), " ; "))
-		c.Check(p.Desc(eng.CallArgs(s.Instr.(*ssa.Call))[0]) == "replicaIdx", "ignore-acks-that-entry", s.Instr, f, "the ignored entry's own index is acknowledged", "")
-	})
+	c.Rule("OWNER", "replica{SetAckIndex}", func() { setAckIndexOwner(c) })
 
 	// ---- 9. every chain that reaches a data flush establishes meta -> index -> data ---------------------------------------------
 	c.Rule("ORDER", "index.metricMetaDatabase.Flush{counters<dictionaries}", func() { metaFlushCountersFirst(c) })
@@ -620,4 +607,21 @@ func callersOf(c *eng.Ctx, fn *ssa.Function) []eng.CallSite {
 		}
 	}
 	return out
+}
+
+func setAckIndexOwner(c *eng.Ctx) {
+	p := c.P
+	_ = p
+	owner(c, "call of ConsumerGroup.Ack", eng.AnyCallTo("pkg/queue.ConsumerGroup.Ack", cgT+".Ack"), []string{rpT + ".SetAckIndex"}, 1)
+	owner(c, "call of replicator.SetAckIndex", eng.AnyCallTo(rpT+".SetAckIndex", "replica.Replicator.SetAckIndex"),
+		[]string{"replica.NewLocalReplicator", rpT + ".IgnoreMessage", "replica.remoteReplicator.Replica", "replica.remoteReplicator.IsReady"}, 3)
+	f := c.Fn(rpT + ".IgnoreMessage")
+	s := c.One(f, eng.CallTo(rpT+".SetAckIndex"), "SetAckIndex")
+	facts := p.MustFacts(f)
+	fs := facts.At(s.Instr)
+	eq := facts.Find(fs, "eq", func(d string, _ ssa.Value) bool {
+		return strings.HasSuffix(d, "+1)") && (strings.Contains(d, "acknowledgedSeq") || strings.Contains(d, "AckIndex") || strings.Contains(d, "AcknowledgedSeq"))
+	}, eng.DescIs("replicaIdx"))
+	c.Check(len(eq) > 0, "ignore-only-next", s.Instr, f, "an undeliverable entry is acknowledged only when it is exactly ack+1 (never skipping unpersisted entries)", "facts: "+strings.Join(facts.Render(fs), " ; "))
+	c.Check(p.Desc(eng.CallArgs(s.Instr.(*ssa.Call))[0]) == "replicaIdx", "ignore-acks-that-entry", s.Instr, f, "the ignored entry's own index is acknowledged", "")
 }
